@@ -466,7 +466,8 @@ func (t *Collection) VisitItemsRandom(
 	var j int
 	v := func(i *Item, depth uint64) bool {
 		if j == 0 {
-			blockStore = append(blockStore, i.Key)
+			// (a copy: the item may be evicted and released once it has been visited)
+			blockStore = append(blockStore, append([]byte(nil), i.Key...))
 			j = 1
 		} else if j >= lenBlock {
 			j = 0
@@ -508,7 +509,7 @@ func (t *Collection) VisitItemsRandom(
 				}
 				first = true
 				advanced = true
-				blockStore[i] = itm.Key
+				blockStore[i] = append([]byte(nil), itm.Key...)
 				return false
 			}
 			err = t.VisitItemsAscendEx(si, true, vis)
@@ -544,7 +545,8 @@ func (t *Collection) VisitItemsAscendBlockEx(
 	var j int
 	v := func(i *Item, depth uint64) bool {
 		if j == 0 {
-			blockStore = append(blockStore, i.Key)
+			// (a copy: the item may be evicted and released once it has been visited)
+			blockStore = append(blockStore, append([]byte(nil), i.Key...))
 			j = 1
 		} else if j >= lenBlock {
 			j = 0
